@@ -95,3 +95,62 @@ def run(harness, crate_dir, timeout=600, mem_gb=24, playback=False, extra=()):
             r.concrete = [[int(x) for x in re.findall(r'\d+', v)] for v in re.findall(r'vec!\[(.*?)\]', body, re.S)]
             r.playback_text = out[out.find('Concrete playback'):][:4000]
     return r
+
+
+def native_playback(harness, crate_dir, timeout=900, test_source=None):
+    """Replay Kani's counterexample against the real code, natively: Kani writes a unit test
+    (`kani_concrete_playback_<harness>_<hash>`, the harness body fed with the concrete values of
+    kani::any()) into a scratch copy of the harness crate, `cargo kani playback` compiles it with
+    the ordinary Rust back end and runs it against the crate under test.  A failing test means the
+    violation is reproduced outside the verifier."""
+    scratch = os.path.join(ROOT, '.build', 'kani-playback-%d' % os.getpid())
+    if os.path.exists(scratch):
+        shutil.rmtree(scratch)
+    shutil.copytree(crate_dir, scratch, ignore=shutil.ignore_patterns('target'))
+    env = dict(os.environ)
+    env['CARGO_NET_OFFLINE'] = 'true'
+    res = {'reproduced': False, 'test_name': None, 'test_source': None, 'cmd': '', 'output_tail': ''}
+    try:
+        if test_source is None:
+            cmd = ['cargo', 'kani', '--target-dir', TARGET, '-Z', 'function-contracts', '-Z', 'stubbing', '-Z', 'concrete-playback',
+                   '--concrete-playback=inplace', '--harness', harness]
+            p = subprocess.run(cmd, cwd=scratch, env=env, capture_output=True, text=True, timeout=timeout)
+            m = re.search(r'- (kani_concrete_playback_\w+)\.', p.stdout + p.stderr)
+            if not m:
+                res['output_tail'] = (p.stdout + p.stderr)[-1500:]
+                return res
+            res['test_name'] = m.group(1)
+            # pick the generated test out of the sources
+            for dirpath, _, files in os.walk(os.path.join(scratch, 'src')):
+                for f in files:
+                    txt = open(os.path.join(dirpath, f)).read()
+                    i = txt.find('fn ' + res['test_name'])
+                    if i >= 0:
+                        j = txt.find('concrete_playback_run', i)
+                        k = txt.find('}', j)
+                        a = txt.rfind('#[test]', 0, i)
+                        res['test_source'] = txt[a:k + 1]
+                        res['test_file'] = os.path.relpath(os.path.join(dirpath, f), scratch)
+        else:
+            res['test_name'] = test_source['name']
+            res['test_source'] = test_source['source']
+            res['test_file'] = test_source['file']
+            fp = os.path.join(scratch, test_source['file'])
+            txt = open(fp).read()
+            hm = re.search(r'fn\s+' + re.escape(harness) + r'\s*\(', txt)
+            # append the stored test to the module that holds the harness
+            txt = txt.rstrip() + '\n' + test_source['source'] + '\n'
+            open(fp, 'w').write(txt)
+        cmd2 = ['cargo', 'kani', 'playback', '-Z', 'concrete-playback', '--', res['test_name']]
+        env['CARGO_TARGET_DIR'] = TARGET + '-playback'
+        res['cmd'] = 'cd <scratch copy of kani/> && CARGO_NET_OFFLINE=true ' + ' '.join(cmd2)
+        p2 = subprocess.run(cmd2, cwd=scratch, env=env, capture_output=True, text=True, timeout=timeout)
+        out = p2.stdout + p2.stderr
+        res['output_tail'] = out[-2500:]
+        res['reproduced'] = ('test result: FAILED' in out) and (res['test_name'] in out)
+        res['ran'] = 'test result:' in out
+    except subprocess.TimeoutExpired:
+        res['output_tail'] = 'timeout'
+    finally:
+        shutil.rmtree(scratch, ignore_errors=True)
+    return res
